@@ -12,7 +12,7 @@ mkdir -p $vc/replays
 sed -i "s#=> /repo#=> $wt#" $vc/harness/go.mod
 rc=0
 for id in "$@"; do
-  ( cd $vc && VERIF_REPO=$wt timeout 1500 ./check $id ${MC_TIER:-quick} 2>&1 | grep -v "^WARNING conda" | tail -4 )
+  ( cd $vc && VERIF_REPO=$wt timeout 1500 ./check $id ${MC_TIER:-quick} 2>&1 | grep -v "^WARNING conda" | tail -8 )
   st=${PIPESTATUS[0]}
   for f in $vc/replays/$id-*.json; do [ -f "$f" ] && python3 - "$f" <<'PY'
 import json,sys
